@@ -253,6 +253,42 @@ func c06Run(c *mon.Ctx) {
 			}
 		})
 	}
+	// (3c) one spelling, one number: a numeric value written with a leading zero, a radix prefix or digit
+	// separators means the same number in every numeric field that accepts the spelling (which spellings are
+	// accepted, and in which radix a leading zero is read, is the library's choice - but it cannot be octal in
+	// a0 and decimal in msgtype: the value word would not be "what was asked" in one of them)
+	{
+		type cell struct{ list, field string }
+		cells := []cell{{"exit", "a0"}, {"exit", "a3"}, {"exit", "pid"}, {"exit", "ppid"}, {"exit", "inode"}, {"exit", "devmajor"}, {"exit", "exit"}, {"exit", "sessionid"}, {"exit", "pers"},
+			{"exclude", "msgtype"}, {"user", "msgtype"}, {"exclude", "pid"}, {"user", "pid"}, {"task", "pid"}}
+		for _, lit := range []string{"1300", "01300", "02424", "0x514", "0X514", "0b10100010100", "0o2424", "1_300", "0_1300", "007", "010", "0x10", "1e3", "1300 ", "+1300", "00", "0x0", "01309", "1100", "0x44c", "02114"} {
+			got := map[uint32][]string{}
+			for _, cl := range cells {
+				if _, known := uapi.Fields[cl.field]; !known {
+					continue
+				}
+				s := &rulegen.Spec{List: cl.list, Action: "always", Filters: []rulegen.Filter{{LHS: cl.field, Op: "=", RHS: lit, Field: uapi.Fields[cl.field]}}}
+				var wire rule.WireFormat
+				var err error
+				ev.Add(1)
+				if p, st := mon.Try(func() { wire, err = rule.Build(s.Rule()) }); p != nil {
+					c.Violation("panic", fmt.Sprintf("Build panicked for -F %s=%s: %v\n%s", cl.field, lit, p, st), s)
+					continue
+				}
+				if err != nil {
+					continue
+				}
+				d, _ := rulegen.Decode(wire)
+				if d.FieldCount == 1 {
+					got[d.Values[0]] = append(got[d.Values[0]], cl.list+":"+cl.field)
+				}
+			}
+			c.Add("numeric_spellings_compared_across_fields", 1)
+			if len(got) > 1 {
+				c.Violation("spelling-means-different-numbers", fmt.Sprintf("the value %q is encoded as different numbers depending on the field: %v", lit, got), &rulegen.Spec{List: "exit", Action: "always", Filters: []rulegen.Filter{{LHS: "a0", Op: "=", RHS: lit}}})
+			}
+		}
+	}
 	// (4) 0..64 filters accepted, 65 must be rejected (a field count of 65 cannot be represented)
 	for n := 0; n <= 66; n++ {
 		s := &rulegen.Spec{List: "exit", Action: "always"}
@@ -348,7 +384,7 @@ func c06Run(c *mon.Ctx) {
 func init() {
 	register(&mon.CheckSpec{
 		ID: "C06", Level: "exploration",
-		Rule: "cases = (1) grid: every list x action x every field name the library admits on that list x every operator the field class admits x V seeded boundary/random values (uids/gids at 0, 2^31-1, 2^31, 2^32-2, unset, -1; exit codes by number and errno name; msgtype by name and number; every perm subset; every filetype; arch names; a0-a3 decimal/hex/negative; string lengths 1-4096), (2) every inter-field comparison in both orders x {=,!=}, (3) every single syscall bit 0..2047, (3b) every (architecture with a syscall table, syscall name of some other table that this table lacks) pair - incl. b32 - must be refused, (4) 0..64 filters (65 must be rejected), (5) key-length limit, (6) string boundary lengths, (7) watches on an existing file, an existing directory, a missing path, symbolic links to a directory / to a file / dangling, and a directory reached through a link, with every permission subset and 0-2 keys, (8) seeded random multi-filter rules with syscall sets by number and by name and 0-3 keys. Every request goes through Build from a Rule struct and (when its strings are shell-safe) through flags.Parse+Build from text; the bytes are decoded at the UAPI offsets by an independent little-endian decoder and compared with the request. distinct_nontrivial = distinct requests (by text).",
+		Rule: "cases = (1) grid: every list x action x every field name the library admits on that list x every operator the field class admits x V seeded boundary/random values (uids/gids at 0, 2^31-1, 2^31, 2^32-2, unset, -1; exit codes by number and errno name; msgtype by name and number; every perm subset; every filetype; arch names; a0-a3 decimal/hex/negative; string lengths 1-4096), (2) every inter-field comparison in both orders x {=,!=}, (3) every single syscall bit 0..2047, (3b) every (architecture with a syscall table, syscall name of some other table that this table lacks) pair - incl. b32 - must be refused, (3c) 21 numeric spellings (leading zeros, 0x / 0b / 0o prefixes, digit separators, exponent, sign, trailing blank) in 14 (list, numeric field) cells - a0, pid, inode, exit, msgtype, ... -: every field that accepts a spelling must encode the same number for it, (4) 0..64 filters (65 must be rejected), (5) key-length limit, (6) string boundary lengths, (7) watches on an existing file, an existing directory, a missing path, symbolic links to a directory / to a file / dangling, and a directory reached through a link, with every permission subset and 0-2 keys, (8) seeded random multi-filter rules with syscall sets by number and by name and 0-3 keys. Every request goes through Build from a Rule struct and (when its strings are shell-safe) through flags.Parse+Build from text; the bytes are decoded at the UAPI offsets by an independent little-endian decoder and compared with the request. distinct_nontrivial = distinct requests (by text).",
 		Assumptions: []string{
 			"expected codes come from internal/uapi (hand-written from linux/audit.h, self-tested against /usr/include/linux/audit.h in setup)",
 			"expected values are computed by the harness's own parsers; syscall names resolve through an x/sys/unix spot table where available, otherwise through the published table",
